@@ -184,7 +184,7 @@ struct Line {
     known: bool,
 }
 
-const LABELS: &[&str] = &["l1", "l2", "l3", "top", "end"];
+const LABELS: &[&str] = &["l1", "l2", "l3", "top", "end", "k=1", "k=2"];
 const OUTS: &[&str] = &["x", "y", "z", "r"];
 const VALS: &[&str] = &["v1", "", "0", "false", "a b", "${x}", "${y}", "pre${z}post", "7", "true", "é#\"q\""];
 
@@ -344,8 +344,12 @@ fn set_out(vars: &mut HashMap<String, String>, out: &Option<String>, v: Option<S
     }
 }
 
-fn model(lines: &[Line], init: &HashMap<String, String>, handler_present: bool, answers: &[u8], source: &str, max_steps: usize) -> Option<ModelRun> {
+fn model(lines: &[Line], included: usize, init: &HashMap<String, String>, handler_present: bool, answers: &[u8], source: &str, max_steps: usize) -> Option<ModelRun> {
     let mut handler_present = handler_present;
+    // `included` > 0: instruction 0 is the directive (text line 1), the next `included` instructions come from the
+    // included file (empty, they never fail), so the instruction at index pc > included was written on text line
+    // pc - included + 1
+    let src_line = |pc: usize| if included == 0 { pc + 1 } else { pc - included + 1 };
     let mut labels: HashMap<String, usize> = HashMap::new();
     for (i, l) in lines.iter().enumerate() {
         if let Some(lb) = &l.ins.label {
@@ -382,7 +386,7 @@ fn model(lines: &[Line], init: &HashMap<String, String>, handler_present: bool, 
         };
         if !l.known {
             m.kinds.insert("unknown-command");
-            m.outcome = Outcome::Fail(pc + 1);
+            m.outcome = Outcome::Fail(src_line(pc));
             return Some(m);
         }
         let _ = cmd;
@@ -423,7 +427,7 @@ fn model(lines: &[Line], init: &HashMap<String, String>, handler_present: bool, 
                     }
                     None => {
                         m.kinds.insert("unknown-label");
-                        m.outcome = Outcome::Fail(pc + 1);
+                        m.outcome = Outcome::Fail(src_line(pc));
                         return Some(m);
                     }
                 }
@@ -446,7 +450,7 @@ fn model(lines: &[Line], init: &HashMap<String, String>, handler_present: bool, 
                 if let Some(v) = v {
                     if let Ok(code) = v.parse::<i32>() {
                         if code != 0 {
-                            m.outcome = Outcome::Fail(pc + 1);
+                            m.outcome = Outcome::Fail(src_line(pc));
                         }
                     }
                 }
@@ -461,7 +465,7 @@ fn model(lines: &[Line], init: &HashMap<String, String>, handler_present: bool, 
                 if handler_present {
                     let i = m.on_error_calls.len();
                     // the handler is called after 'false' was stored: that is what it sees, and what it writes stays
-                    m.on_error_calls.push(vec![msg, (pc + 1).to_string(), source.to_string(), seen_variables(&m.vars)]);
+                    m.on_error_calls.push(vec![msg, src_line(pc).to_string(), source.to_string(), seen_variables(&m.vars)]);
                     let a = on_error_answer(i, answers);
                     if a == 5 {
                         m.vars.insert("x".to_string(), "written by on_error".to_string());
@@ -472,12 +476,12 @@ fn model(lines: &[Line], init: &HashMap<String, String>, handler_present: bool, 
                     match a {
                         1 => {
                             m.classes.push("on_error-exit");
-                            m.outcome = Outcome::Fail(pc + 1);
+                            m.outcome = Outcome::Fail(src_line(pc));
                             return Some(m);
                         }
                         2 => {
                             m.classes.push("on_error-crash");
-                            m.outcome = Outcome::Fail(pc + 1);
+                            m.outcome = Outcome::Fail(src_line(pc));
                             return Some(m);
                         }
                         _ => {}
@@ -487,7 +491,7 @@ fn model(lines: &[Line], init: &HashMap<String, String>, handler_present: bool, 
             }
             Res::Crash(_) => {
                 m.kinds.insert("crash");
-                m.outcome = Outcome::Fail(pc + 1);
+                m.outcome = Outcome::Fail(src_line(pc));
                 return Some(m);
             }
             Res::Handler(on, v) => {
@@ -523,6 +527,16 @@ pub fn reset_state(answers: Vec<u8>) {
     });
 }
 
+/// a file of `k` empty / comment lines (per thread and k, written once)
+fn include_fixture(k: usize) -> String {
+    let f = format!("{}/c03-included-{}-{:?}.ds", scratch_root(), k, std::thread::current().id()).replace(['(', ')'], "");
+    if !std::path::Path::new(&f).exists() {
+        let body: String = (0..k).map(|i| if i % 2 == 0 { "\n" } else { "# nothing here\n" }).collect();
+        std::fs::write(&f, body).expect("write include fixture");
+    }
+    f
+}
+
 fn case_with(t: &mut Tape, st: &mut Stats, max_lines: usize) -> Verdict {
     let lines = gen_program(t, st, max_lines);
     // configuration
@@ -537,6 +551,24 @@ fn case_with(t: &mut Tape, st: &mut Stats, max_lines: usize) -> Verdict {
         }
     };
     let file_mode = t.chance(1, 4);
+    // sometimes the script starts by including a file of empty / comment lines: its (empty) instructions sit in
+    // front of the script's own, which keep their own source line numbers
+    let included: usize = if t.chance(1, 5) { 1 + t.below(4) } else { 0 };
+    let mut lines = lines;
+    if included > 0 {
+        st.class("script-starts-with-an-include");
+        for l in lines.iter_mut() {
+            if l.known && l.ins.args.first().map(|a| a == "gn").unwrap_or(false) {
+                if let Ok(n) = l.ins.args[1].parse::<usize>() {
+                    l.ins.args[1] = (n + included + 1).to_string();
+                }
+            }
+        }
+        // the directive itself is an instruction too
+        for _ in 0..included + 1 {
+            lines.insert(0, Line { ins: Ins::default(), known: true });
+        }
+    }
     let mut init = HashMap::new();
     for o in OUTS {
         if t.chance(1, 3) {
@@ -546,7 +578,10 @@ fn case_with(t: &mut Tape, st: &mut Stats, max_lines: usize) -> Verdict {
     // render
     let mut text = String::new();
     let fancy = t.chance(1, 3);
-    for l in &lines {
+    if included > 0 {
+        text.push_str(&format!("!include_files {}\n", include_fixture(included)));
+    }
+    for l in lines.iter().skip(if included > 0 { included + 1 } else { 0 }) {
         if fancy {
             let mut info = RenderInfo::default();
             text.push_str(&render_line(&l.ins, t, &mut info));
@@ -564,7 +599,7 @@ fn case_with(t: &mut Tape, st: &mut Stats, max_lines: usize) -> Verdict {
         None
     };
     let source = path.clone().unwrap_or_default();
-    let m = match model(&lines, &init, handler_at_start, &on_error, &source, 5000) {
+    let m = match model(&lines, included, &init, handler_at_start, &on_error, &source, 5000) {
         Some(m) => m,
         None => return Verdict::Discard("model step bound exceeded"),
     };
@@ -660,7 +695,7 @@ fn case_large(t: &mut Tape, st: &mut Stats) -> Verdict {
 pub fn property() -> Property {
     Property {
         id: "C03",
-        rule: "programs of 1..40 (thorough: ..120) lines over a scripted command whose result (continue/goto label/goto line/exit/error/crash, with or without value, with jump countdowns) is dictated by its arguments, with labels from a small pool (duplicates, undefined targets), forward/backward/out-of-range line jumps, unknown commands, arguments reading variables, an on_error command (registered at the start or not, and registered / removed by the scripted command while the script runs) answering continue/exit/crash/error/goto or writing a variable, and recording the variables it sees when called, text or file mode; compared with an abstract machine transcribed from the statement: full call log (arguments, line index, output variable), on_error call log, final variables, Ok/Err with source line (and source file). Non-trivial: >=2 result kinds executed and >=1 jump or error; distinct by (script, configuration) hash",
+        rule: "programs of 1..40 (thorough: ..120) lines over a scripted command whose result (continue/goto label/goto line/exit/error/crash, with or without value, with jump countdowns) is dictated by its arguments, with labels from a small pool (duplicates, undefined targets), forward/backward/out-of-range line jumps, unknown commands, arguments reading variables, an on_error command (registered at the start or not, and registered / removed by the scripted command while the script runs) answering continue/exit/crash/error/goto or writing a variable, and recording the variables it sees when called, text or file mode, one script in five starting with an !include_files of 1..4 empty / comment lines (whose empty instructions precede the script's own, so jump targets shift while source lines do not); compared with an abstract machine transcribed from the statement: full call log (arguments, line index, output variable), on_error call log, final variables, Ok/Err with source line (and source file). Non-trivial: >=2 result kinds executed and >=1 jump or error; distinct by (script, configuration) hash",
         assumptions: &[
             "instructions with an output variable but no command, and exit values that are integers written with sign/space or outside i32, are not generated",
             "error messages are plain text (messages with expansion syntax belong to C10)",
@@ -673,7 +708,7 @@ pub fn property() -> Property {
                     Tier::Thorough => Plan::Random { cases: 20_000_000, max_len: 900 },
                 },
                 case: case_small,
-                min_classes: &[("continue-none-deletes-set-variable", 1000), ("backward-line-jump", 1000), ("out-of-range-jump", 500), ("duplicate-label-target", 500), ("on_error-crash", 200), ("error-right-after-jump", 300), ("file-mode", 1000), ("handler-registered-during-the-run", 1000), ("handler-removed-during-the-run", 1000), ("on_error-writes-the-failing-output-variable", 50)],
+                min_classes: &[("continue-none-deletes-set-variable", 1000), ("backward-line-jump", 1000), ("out-of-range-jump", 500), ("duplicate-label-target", 500), ("on_error-crash", 200), ("error-right-after-jump", 300), ("file-mode", 1000), ("handler-registered-during-the-run", 1000), ("handler-removed-during-the-run", 1000), ("on_error-writes-the-failing-output-variable", 50), ("script-starts-with-an-include", 10000)],
             },
             Section {
                 name: "large-programs",
